@@ -1,4 +1,4 @@
-import DadiVerif.Lemmas.Step
+import DadiVerif.Lemmas.Integrate
 /-!
 # C02 — every integration path solves the documented implicit scheme
 
@@ -125,6 +125,12 @@ theorem C02_wiring_drivers :
     ∧ Py.dtCalls.map (fun c => (c.d, c.ax, c.args))
       = (List.range 5).flatMap (fun d => (List.range (d+1)).map (fun ax => (d+1, ax, expectedDtArgs (d+1) ax))) := by
   decide
+
+/-- a parameter passed as a constant and the same parameter passed as a function of time returning that constant give
+    the same result: for any step function, any duration, any number of steps (induction on the step count) -/
+theorem C02_const_fn {σ : Type} (step : StepParams → ℚ → σ → σ) (tf : ℚ) (P : StepParams) (T : ℚ) (fuel : ℕ) (t : ℚ) (φ : σ) :
+    integrateFn step tf (fun _ => P) T fuel t P φ = integrateConst step tf P T fuel t φ :=
+  integrateFn_const step tf P T fuel t φ
 
 /-- non-vacuity: a 5-point grid, ν=2, m=1, γ=−3, h=1/5, dt=1/100 — pivots are non-zero and the step solves. -/
 example : PivotsOk 1 0
